@@ -21,9 +21,11 @@ def singlet(order, mname, G, a1, a0, nf, iters=1, maxorder=10):
 
 
 def steps(a0, a1, iters, aem, kind="geom"):
-    """coupling step list and midpoints (a_s arithmetic mean, a_em constant) as the QED kernels expect."""
+    """coupling step list and midpoints (a_s arithmetic mean; a_em constant, or a function of the
+    mid-step a_s: a_em moving along the steps) as the QED kernels expect."""
     as_list = np.geomspace(a0, a1, iters + 1) if kind == "geom" else np.linspace(a0, a1, iters + 1)
-    a_half = np.array([[(as_list[i] + as_list[i + 1]) / 2.0, aem] for i in range(iters)])
+    f = aem if callable(aem) else (lambda _a: aem)
+    a_half = np.array([[(as_list[i] + as_list[i + 1]) / 2.0, f((as_list[i] + as_list[i + 1]) / 2.0)] for i in range(iters)])
     return as_list, a_half
 
 
